@@ -184,3 +184,36 @@ def update_of(st):
         if isinstance(st.value.op, (ast.Add, ast.Mult)) and unparse(st.value.right) == t:
             return t, type(st.value.op).__name__, st.value.left
     return None
+
+
+def resolve_in_block(stmt, e):
+    """``e`` (an expression of statement ``stmt``) with each local name replaced by the value of the nearest earlier plain
+    assignment to it among the preceding statements of the same block (so a temporary that is re-bound in every branch or
+    iteration is still written out where it is used)."""
+    import copy
+    par = getattr(stmt, '_parent', None)
+    block = None
+    for field in ('body', 'orelse', 'finalbody'):
+        b = getattr(par, field, None)
+        if isinstance(b, list) and any(x is stmt for x in b):
+            block = b
+    if block is None:
+        return e
+    defs = {}
+    for s_ in block:
+        if s_ is stmt:
+            break
+        if isinstance(s_, ast.Assign) and len(s_.targets) == 1 and isinstance(s_.targets[0], ast.Name):
+            defs[s_.targets[0].id] = s_.value
+        else:
+            for x in ast.walk(s_):
+                if isinstance(x, ast.Name) and isinstance(x.ctx, ast.Store):
+                    defs.pop(x.id, None)
+
+    class R(ast.NodeTransformer):
+        def visit_Name(self, n):
+            if isinstance(n.ctx, ast.Load) and n.id in defs:
+                return copy.deepcopy(defs[n.id])
+            return n
+
+    return R().visit(copy.deepcopy(e))
